@@ -1,47 +1,68 @@
 (* C07 (ASF): saving unchanged tags is lossless and idempotent.
-   Proved here: (1) unknown header objects are kept raw by every save (C02); (2) a second save of the same tag list with
-   the default padding policy is byte-identical, for every tag list whose rendered tag objects mutagen's reader accepts
-   (place_loadable: decidable, holds for the empty list by computation; for all valid tag lists it is the mirror-reader
-   round trip, which is not proved here -> _partial). *)
+   mvalid_attr: names and UNICODE values are valid UTF-16 without NUL code units at either end (what mutagen itself can
+   hold after a load: its reader strips NULs and rejects lone surrogates).  asf_canon: the cardinality / level rules of
+   the specification for the four tag objects and the header extension.  reload_attrs P: the tag list mutagen's reader
+   returns for a file rendered from placement P (ContentDescription fields in their fixed order, language/stream
+   None where the object has no such field, the stored number otherwise). *)
 From Coq Require Import ZArith List Bool Lia.
 Import ListNotations.
 Require Import Base.Py Base.ZList Gen.Gen_tags Model.Splice Model.Fam_asf Proofs.C09_policy
-  Proofs.Fam_asf_codec Proofs.Fam_asf_save Proofs.Fam_asf_agree Proofs.Fam_asf_reopen Proofs.Fam_asf_hist Proofs.Fam_asf_pad.
+  Proofs.Fam_asf_codec Proofs.Fam_asf_save Proofs.Fam_asf_agree Proofs.Fam_asf_attr Proofs.Fam_asf_reopen Proofs.Fam_asf_c01
+  Proofs.Fam_asf_mirror Proofs.Fam_asf_canon Proofs.Fam_asf_hist Proofs.Fam_asf_pad Proofs.Fam_asf_c07 Proofs.Fam_asf_lossless
+  Proofs.Fam_asf_fix.
 Open Scope Z_scope.
 
-(* mutagen reloads what it wrote as exactly the object tree it rendered (unknown objects raw and in place) *)
-Theorem C07_asf_reopens_partial : forall f t cb f', asf_save f t cb = Ok f' -> place_loadable (place t) = true ->
+(* mutagen reloads what it wrote as exactly the object tree it rendered: unknown objects raw and in place *)
+Theorem C07_asf_reopens : forall f t cb f', Forall mvalid_attr t -> asf_save f t cb = Ok f' ->
   exists objs ts, asf_open f = Ok (objs, ts) /\
     asf_open f' = Ok (save_tree f objs t cb, gather (objs_tags (save_tree f objs t cb))).
-Proof. exact asf_save_reopens. Qed.
-Print Assumptions C07_asf_reopens_partial.
+Proof. exact asf_save_reopens_valid. Qed.
+Print Assumptions C07_asf_reopens.
 
-(* second save byte-identical (default policy) *)
-Theorem C07_asf_idempotent_partial : forall f t f1, 0 <= header_size f -> asf_save f t cb_default = Ok f1 ->
-  place_loadable (place t) = true -> asf_save f1 t cb_default = Ok f1.
-Proof. exact asf_save_default_twice. Qed.
-Print Assumptions C07_asf_idempotent_partial.
+(* lossless: the tags it reloads are the saved ones in their reloaded form *)
+Theorem C07_asf_lossless : forall f s t cb f', asf_parse f = Ok s -> asf_canon f = true -> Forall mvalid_attr t ->
+  asf_save f t cb = Ok f' -> exists tree, asf_open f' = Ok (tree, reload_attrs (place t)).
+Proof. exact asf_save_reload. Qed.
+Print Assumptions C07_asf_lossless.
 
-(* general form: any tag list with the same placement, any callback that keeps the padding now present *)
-Theorem C07_asf_save_again_partial : forall f t cb f1 t' cb', 0 <= header_size f -> asf_save f t cb = Ok f1 ->
-  place_loadable (place t) = true -> place t' = place t ->
+(* idempotent: a second save of the same tag list with the default padding policy is byte-identical *)
+Theorem C07_asf_idempotent : forall f t f1, 0 <= header_size f -> Forall mvalid_attr t ->
+  asf_save f t cb_default = Ok f1 -> asf_save f1 t cb_default = Ok f1.
+Proof. exact asf_save_default_twice_valid. Qed.
+Print Assumptions C07_asf_idempotent.
+
+(* load + save unchanged: saving the tags mutagen reloads from a saved file reproduces the file byte for byte *)
+Theorem C07_asf_reloaded_idempotent : forall f s t f1, asf_parse f = Ok s -> Forall mvalid_attr t ->
+  asf_save f t cb_default = Ok f1 -> asf_save f1 (reload_attrs (place t)) cb_default = Ok f1.
+Proof. exact asf_save_reloaded_default. Qed.
+Print Assumptions C07_asf_reloaded_idempotent.
+
+(* general form: any callback that, handed the padding now present, returns it *)
+Theorem C07_asf_save_again : forall f t cb f1 t' cb', 0 <= header_size f -> Forall mvalid_attr t ->
+  asf_save f t cb = Ok f1 -> place t' = place t ->
   (forall p s, asf_info f t = Ok (p, s) -> cb' (Z.max 0 (cb p s)) s = Z.max 0 (cb p s)) ->
   asf_save f1 t' cb' = Ok f1.
-Proof. exact save_again. Qed.
-Print Assumptions C07_asf_save_again_partial.
+Proof. exact asf_save_again_valid. Qed.
+Print Assumptions C07_asf_save_again.
+
+(* the placement loop is the identity (up to the fixed field order of ContentDescription) on a reloaded list *)
+Theorem C07_asf_place_reload : forall t, place (reload_attrs (place t)) = reloaded (place t).
+Proof. intros t. apply place_reload; [apply place_pinv|apply place_cd_text|apply place_cd_dict]. Qed.
+Print Assumptions C07_asf_place_reload.
 
 (* the re-rendering is a fixed point on the object list of a saved file *)
 Theorem C07_asf_core_fixed_point : forall P l n, core_objs P (core_objs P l ++ [pad_obj n]) = core_objs P l.
 Proof. exact core_idem. Qed.
 Print Assumptions C07_asf_core_fixed_point.
 
-(* ---- example: the hypothesis place_loadable holds for ordinary tags (computed) *)
+(* ---- example *)
 Definition tiny : list Z :=
   asf_build [OLeaf G_FILE (zeros 64); OExt HEXT_FIXED [(repeat 9 16, [5])]; OLeaf (repeat 8 16) [1; 2; 3]] [7; 8; 9].
 Definition tags : list attr :=
   [mkA N_TITLE (VText [72; 105]) None None; mkA [70] (VBool true) None (Some 1); mkA [71] (VQword 77) (Some 2) None;
    mkA N_TITLE (VBytes [1; 2]) None None].
-Example tags_loadable : place_loadable (place tags) = true.
-Proof. vm_compute. reflexivity. Qed.
-Example tiny_twice : exists f1, asf_save tiny tags cb_default = Ok f1 /\ asf_save f1 tags cb_default = Ok f1.
-Proof. eexists. split; [vm_compute; reflexivity|vm_compute; reflexivity]. Qed.
+Example tags_mvalid : Forall mvalid_attr tags.
+Proof. repeat constructor. Qed.
+Example tiny_twice : exists f1, asf_save tiny tags cb_default = Ok f1 /\ asf_save f1 tags cb_default = Ok f1 /\
+  asf_save f1 (reload_attrs (place tags)) cb_default = Ok f1.
+Proof. eexists. split; [vm_compute; reflexivity|]. split; [vm_compute; reflexivity|vm_compute; reflexivity]. Qed.
